@@ -25,7 +25,7 @@ void vp_sym_bytes_exact(QByteArray *out, unsigned n);
 void vp_sym_string_exact(QString *out, unsigned n);
 unsigned vp_cfg(unsigned i); unsigned vp_diglen();
 void vp_split_hint_begin(const QByteArray *ba, char sep); void vp_split_hint_piece(unsigned len);
-void vp_b64_expect_valid(bool on);
+void vp_b64_expect_valid(bool on); void vp_toint_fix(unsigned v);
 void vp_index_hint_begin(const QByteArray *ba); void vp_index_hint(char c, unsigned pos);
 unsigned vp_orc_count();
 void vp_orc_seal(unsigned n); void vp_orc_reference(bool on);
